@@ -98,7 +98,7 @@ class M:
                 for nm in names_in(e):
                     roles[nm] = "guard"
             for v in t.validators:
-                roles[v.lstrip("@")] = "val"
+                roles[v.lstrip("@%")] = "val"
         return roles
 
     def all_events(self):
@@ -124,7 +124,7 @@ _KW = {"and", "or", "not", "True", "False", "None", "v"}
 
 def names_in(entry):
     """Names referenced by a cond/unless entry (plain name or boolean expression)."""
-    if entry.startswith("@"):
+    if entry.startswith("@") or entry.startswith("%"):
         return [entry[1:]]
     if IDENT.match(entry):
         return [entry]
@@ -155,6 +155,23 @@ def _mk_async(name):
     acb.__name__ = name
     acb.__qualname__ = f"HA.{name}"
     return acb
+
+
+def _mk_wrapped(name):
+    """A plain function that returns an awaitable (e.g. an `async def` hidden behind an
+    ordinary decorator): the async engine must still await it."""
+    def wcb(self, *args, **kwargs):
+        return CUR.env.acall(self, name, args, kwargs)
+
+    wcb.__name__ = name
+    wcb.__qualname__ = f"HW.{name}"
+    return wcb
+
+
+def _mk(name, flags):
+    if "w" in flags:
+        return _mk_wrapped(name)
+    return _mk_async(name) if "a" in flags else _mk_sync(name)
 
 
 def _mk_fn_sync(name):
@@ -211,18 +228,31 @@ def build(m: M, name="M", strict=False, extra_ns=None) -> Built:
     st = {}
     fns = {}
 
+    deco = []    # (grouper-callable, name) applied after the owning object exists
+
+    def flags_of(p, nm):
+        return next((f for (pp, n, f) in m.provided if pp == p and n == nm), "")
+
     def inline(entries):
         out = []
         for e in entries:
+            if e.startswith("%"):
+                continue
             if e.startswith("@"):
                 nm = e[1:]
                 if nm not in fns:
-                    flags = next((f for (p, n, f) in m.provided if p == "fn" and n == nm), "")
-                    fns[nm] = _mk_fn_async(nm) if "a" in flags else _mk_fn_sync(nm)
+                    fns[nm] = _mk_fn_async(nm) if "a" in flags_of("fn", nm) else _mk_fn_sync(nm)
                 out.append(fns[nm])
             else:
                 out.append(e)
         return out or None
+
+    def decorate(owner, group, entries):
+        for e in entries:
+            if e.startswith("%"):
+                nm = e[1:]
+                fn = _mk(nm, flags_of("dec", nm))
+                ns[nm] = getattr(owner, group)(fn)
 
     for s in m.states:
         kw = {}
@@ -233,6 +263,8 @@ def build(m: M, name="M", strict=False, extra_ns=None) -> Built:
         st[s.id] = State(initial=s.initial, final=s.final, enter=inline(s.enter),
                          exit=inline(s.exit), **kw)
         ns[s.id] = st[s.id]
+        decorate(st[s.id], "enter", s.enter)
+        decorate(st[s.id], "exit", s.exit)
     tr_objs = []
     for t in m.trans:
         ev = list(t.events) if len(t.events) != 1 else t.events[0]
@@ -242,11 +274,13 @@ def build(m: M, name="M", strict=False, extra_ns=None) -> Built:
             before=inline(t.before), on=inline(t.on), after=inline(t.after),
         )
         tr_objs.append(tl[0])
+        for grp in ("cond", "unless", "validators", "before", "on", "after"):
+            decorate(tl, grp, getattr(t, grp))
     per = {}
     for (p, n, f) in m.provided:
         per.setdefault(p, []).append((n, f))
     for (n, f) in per.get("sm", ()):
-        ns[n] = _mk_async(n) if "a" in f else _mk_sync(n)
+        ns[n] = _mk(n, f)
     if extra_ns:
         ns.update(extra_ns)
     cls = StateMachineMetaclass(name, (StateMachine,), ns, strict_states=strict) \
@@ -256,13 +290,13 @@ def build(m: M, name="M", strict=False, extra_ns=None) -> Built:
     if "model" in per:
         mns = {"_prov": "model", "__init__": _model_init}
         for (n, f) in per["model"]:
-            mns[n] = _mk_async(n) if "a" in f else _mk_sync(n)
+            mns[n] = _mk(n, f)
         model_cls = type("Mod", (), mns)
     listener_cls = {}
     for lab in set(p for p in per if p not in ("sm", "model", "fn")) | set(m.listeners):
         lns = {"_prov": lab}
         for (n, f) in per.get(lab, ()):
-            lns[n] = _mk_async(n) if "a" in f else _mk_sync(n)
+            lns[n] = _mk(n, f)
         listener_cls[lab] = type(lab, (), lns)
     return Built(m, cls, tr_objs, fns, model_cls, listener_cls)
 
